@@ -1910,7 +1910,7 @@ namespace bloch::runtime {
         }
         auto releaseNow = [this](Object* o) {
             ++m_releaseDepth;
-            destroyObject(o, !o->skipDestructor);
+            destroyObject(o, !o->skipDestructor && !m_abandonDestructors);
             if (!o->escapedDestructor)
                 delete o;
             --m_releaseDepth;
@@ -2006,7 +2006,8 @@ namespace bloch::runtime {
         // run by the drop may write this object's fields again (it can still reach it), and must
         // find every slot a valid value - never one the vector is in the middle of destroying.
         // What such a destructor stores is dropped in a further round.
-        for (int round = 0; round < 1000; ++round) {
+        bool emptied = false;
+        for (int round = 0; round < 1000 && !emptied; ++round) {
             bool droppedAny = false;
             for (size_t i = 0; i < obj->fields.size(); ++i) {
                 if (obj->fields[i].type == Value::Type::Object ||
@@ -2017,7 +2018,26 @@ namespace bloch::runtime {
                 }
             }
             if (!droppedAny)
-                break;
+                emptied = true;
+        }
+        if (!emptied) {
+            // The destructors run by the drops keep storing new objects in this object. Its qubits
+            // are about to be released: a destructor running after that could still reach them
+            // through this object, by then handed to another declaration. Stop instead - the run
+            // ends with a diagnostic at the next statement, and no user destructor runs from here.
+            m_abandonDestructors = true;
+            if (!m_pendingDestructorError)
+                m_pendingDestructorError = std::make_exception_ptr(BlochError(
+                    ErrorCategory::Runtime, 0, 0,
+                    "destructors keep storing new objects in a dying object of class '" +
+                        (obj->cls ? obj->cls->name : std::string("?")) + "'"));
+            for (size_t i = 0; i < obj->fields.size(); ++i) {
+                if (obj->fields[i].type == Value::Type::Object ||
+                    obj->fields[i].type == Value::Type::ObjectArray) {
+                    Value dropped = std::move(obj->fields[i]);
+                    obj->fields[i] = Value{};
+                }
+            }
         }
         // Reset tracked qubits
         if (obj->cls) {
